@@ -165,6 +165,16 @@ def run(ctx):
         ctx.count(f"outcome_{out.kind}")
         ctx.case((boundary, skeleton(ty, 3), genval.skeleton(v, 3), out.kind if out.kind != 'escape' else type(out.exc).__name__),
                  sample={'boundary': boundary, 'type': describe(ty)[:200], 'value': short(v, 150), 'outcome': out.brief()[:150]})
+        if out.kind == 'converr' and ctx.rng('render', boundary, i, ctx.counters.get('boundary_calls', 0)).random() < 0.3:
+            # what the caller does with a ConvertError is look at it: str(), repr() and the tree are part of the error, and may not raise
+            for how, f in (('str', str), ('repr', repr), ('str(tree)', lambda e: str(e.tree))):
+                r = observe(f, out.exc)
+                ctx.count('errors_rendered')
+                if r.kind != 'value':
+                    ctx.violation('only-ConvertError-escapes', sub, i,
+                                  {'boundary': boundary, 'type': describe(ty), 'value': short(v, 300), 'looking_at_the_error': how, 'raised': r.brief()},
+                                  mech=f"error-text-raises:{type(r.exc).__name__}@{escape_site(r.exc)}")
+                    break
         if out.kind == 'escape':
             site = escape_site(out.exc)
             ctx.violation('only-ConvertError-escapes', sub, i,
